@@ -88,7 +88,8 @@ pub fn worker_handle(line: &str) -> String {
                         if r.name != g.name || r.extras != g.extras || r.marker != g.marker || !vu_same { " GENERIC-DIFFER:components" }
                         else if !view_same { " GENERIC-DIFFER:VersionOrUrlRef" } else if !clear_ok { " GENERIC-DIFFER:clear_url" } else { "" }
                     }
-                    (Ok(_), Err(_)) => " GENERIC-DIFFER:rejected",
+                    // (plain `Url` does not expand `${NAME}`: a text that is a URL only after expansion is not one for it)
+                    (Ok(_), Err(ge)) => if text.contains('$') && matches!(ge.message, Pep508ErrorSource::UrlError(_)) { "" } else { " GENERIC-DIFFER:rejected" },
                     (Err(e), Ok(_)) => if matches!(e.message, Pep508ErrorSource::UrlError(_)) { "" } else { " GENERIC-DIFFER:accepted" },
                     (Err(e), Err(ge)) => if matches!(e.message, Pep508ErrorSource::UrlError(_)) || (e.start == ge.start && e.len == ge.len) { "" } else { " GENERIC-DIFFER:span" },
                 }
@@ -556,7 +557,9 @@ pub fn run(out: &mut Out, tier: &str, seed: u64, prop: &str) {
     let vars = default_vars();
     // ---- C07: leading whitespace never changes what the name is taken to be (archive check on the name itself) ----
     if prop == "C07" {
-        for name in ["backports.zipfile", "backports.tarfile", "a.whlx", "x.tar.gzip", "pkg.tgz1", "n.zip-extra", "foo.tar.bz2x"] {
+        for name in ["backports.zipfile", "backports.tarfile", "a.whlx", "x.tar.gzip", "pkg.tgz1", "n.zip-extra", "foo.tar.bz2x",
+            // a compression suffix is an archive name only behind `.tar`
+            "zope.interface.gz", "ruamel.yaml.xz", "pkg-1.0.bz2", "a.b.lz", "A.B.lzma", "interface.gz", "backports.lzma", "x.tar.y.gz", "x.tgz.gz", "tar.gz", "a.TAR.gz", "a.tar.GZ", "a.zip.x", "a.whl.1"] {
             for k in 0..6usize {
                 for lead in [" ".repeat(k), "\t".repeat(k)] {
                     for tail in ["", "[extra]", " ; python_version >= '3.8'", ">=1.0"] {
@@ -679,6 +682,17 @@ pub fn run(out: &mut Out, tier: &str, seed: u64, prop: &str) {
             texts.push(format!("pkg[x] @ https://example.org/p.whl ; sys_platform == 'win32' and (extra == '{a}' or extra != '{b}')"));
             texts.push(format!("pkg>=1.0,<2 ; extra != '{a}' or extra == '{b}'"));
         }
+        // URL texts whose PARSED url ends in `;` / `#` / a blank although the text does not (trimmed C0 controls, a variable that
+        // expands to nothing, an escape the extension feature decodes), crossed with every kind of marker — none, constant
+        // true, constant false (written back as `python_version < '0'`), ordinary: whatever is accepted renders to a text that parses back
+        for url in ["https://host/x;\u{1}", "https://host/x#\u{1f}", "https://host/x;${VP_EMPTY}", "https://host/x#${VP_EMPTY}", "https://host/x;\u{1}\u{2}", "file:///tmp/a%3B", "file:///tmp/a%23", "file:///tmp/a%20",
+                    "https://host/x%3B", "https://host/x;a", "https://host/x?q=;\u{1}", "https://host/x#frag;\u{8}", "https://host/x\u{1}", "${VP_EMPTY}https://host/x;${VP_EMPTY}"] {
+            for marker in ["", " ; os_name == 'a'", " ; os_name == 'a' and os_name == 'b'", " ; python_version == '3.8.1'", " ; extra == 'a' and extra != 'a'", " ; os_name == 'a' or os_name != 'a'",
+                           " ; python_full_version >= '3' or python_full_version < '3'", " ; python_version < '0'", " ; 'a' in os_name and 'a' not in os_name"] {
+                texts.push(format!("name @ {url}{marker}"));
+                texts.push(format!("name[x] @ {url}{marker}"));
+            }
+        }
         for text in texts {
             let ans = req_case(out, &mut w, &mut rc, prop, &text, &vars);
             if ans.starts_with("ok ") { round_trip(out, &mut rc, &text, &vars); out.stat("c08.targeted_markers"); }
@@ -709,6 +723,36 @@ pub fn run(out: &mut Out, tier: &str, seed: u64, prop: &str) {
                     if a.starts_with("panic") || a == "dead" { out.oracle_fail("C06", "Extras::parse panicked", serde_json::json!({"text": text})); }
                     if a.contains("disp=0") || a.contains("boundary=0") { out.oracle_fail("C06", "Extras::parse error not renderable / span off boundary", serde_json::json!({"text": text.trim_start_matches('n')})); }
                     out.stat("blank_width.cases");
+                }
+            }
+        }
+        // a 2-, 3- and 4-byte scalar slid through every position of URL, path and extras texts: any slice taken at a fixed
+        // byte offset (or an offset computed on another string) lands inside a scalar for one of them
+        {
+            let bases = ["file://localhost/p/a.whl", "file:///tmp/pkgs/a-1.0.whl", "file://abcdefghij/pkg-1.0-py3-none-any.whl", "file:relative/p.tar.gz", "https://host.example/p/a.whl#sha256=abc", "git+https://h.example/p.git@main#egg=n",
+                "./rel/path/x.tar.gz", "/abs/path/x-1.0.zip", "${VP_HOME_DIR}/x/y.whl", "file://${VP_LONG}/x/y.whl", "FILE://LOCALHOST/p", "C:\\dir\\a.whl", "hg+static-http://h.example/p"];
+            for base in bases {
+                let cuts: Vec<usize> = (0..=base.len()).filter(|i| base.is_char_boundary(*i)).take(44).collect();
+                for &cut in &cuts {
+                    for ch in ["\u{e9}", "\u{20ac}", "\u{1D11E}"] {
+                        let url = format!("{}{}{}", &base[..cut], ch, &base[cut..]);
+                        for text in [format!("n @ {url}"), format!("n[a] @ {url} ; os_name == 'a'")] {
+                            req_case(out, &mut w, &mut rc, prop, &text, &vars);
+                        }
+                        #[cfg(feature = "ext")]
+                        { unnamed_case(out, &mut w, &mut rc, &format!("{url}[a] ; os_name == 'a'"), &vars); }
+                        // the public text helpers are total too
+                        out.evaluations += 1;
+                        let u2 = url.clone();
+                        let helpers = std::panic::catch_unwind(move || {
+                            let _ = pep508_rs::split_scheme(&u2);
+                            let _ = pep508_rs::split_extras(&u2);
+                            let _ = pep508_rs::strip_host(&u2);
+                            if let Some((_, rest)) = pep508_rs::split_scheme(&u2) { let _ = pep508_rs::strip_host(rest); }
+                        });
+                        if helpers.is_err() { out.oracle_fail("C06", "a public URL text helper (split_scheme / split_extras / strip_host) panicked", serde_json::json!({"text": url})); }
+                        out.stat("sliding_scalar.cases");
+                    }
                 }
             }
         }
@@ -806,6 +850,18 @@ pub fn run(out: &mut Out, tier: &str, seed: u64, prop: &str) {
                 if !ans.starts_with("ok ") { out.oracle_fail("C18", &format!("a URL with the supported scheme `{sc}` is rejected: {ans}"), serde_json::json!({"text": text})); }
                 url_rule_oracle(out, &text, &format!(" {u}"), &ans, &vars);
                 out.stat("c18.supported_schemes");
+            }
+            // C0 controls around the URL text (not whitespace for the tokenizer, dropped by URL parsing): still that scheme's URL,
+            // and `given()` is still the text as written
+            for (lead, trail) in [("\u{1}", ""), ("\u{8}", ""), ("\u{e}", ""), ("\u{1b}", ""), ("\u{1f}", ""), ("", "\u{1}"), ("\u{1f}", "\u{1}"), ("\u{0}", ""), ("\u{1}\u{2}", "")] {
+                for tail in ["", " ; os_name == 'a'"] {
+                    let u = if sc == "file" { format!("{lead}file:///p/h.org/p{trail}") } else { format!("{lead}{sc}://h.org/p{trail}") };
+                    let text = format!("n @ {u}{tail}");
+                    let ans = req_case(out, &mut w, &mut rc, prop, &text, &vars);
+                    if !ans.starts_with("ok ") { out.oracle_fail("C18", &format!("a URL with the supported scheme `{sc}` behind / before a C0 control character is rejected: {ans}"), serde_json::json!({"text": text})); }
+                    url_rule_oracle(out, &text, &format!(" {u}{tail}"), &ans, &vars);
+                    out.stat("c18.c0_controls_around_url");
+                }
             }
         }
         for u in urls {
@@ -1044,6 +1100,8 @@ pub const SUPPORTED_SCHEMES: [&str; 25] = ["file", "git+git", "git+http", "git+f
 
 /// RFC 3986 scheme of a text: ALPHA *( ALPHA / DIGIT / "+" / "-" / "." ) before the first `:`
 fn scheme_of(text: &str) -> Option<&str> {
+    // (a URL is read after its leading C0 controls and spaces are dropped — WHATWG, and what `Url::parse` does)
+    let text = text.trim_start_matches(|c: char| c <= ' ');
     let (s, _) = text.split_once(':')?;
     let mut cs = s.chars();
     if !cs.next()?.is_ascii_alphabetic() { return None; }
